@@ -31,6 +31,11 @@
 //! StreamServer::reconfigure raises the limit; somebody must be served.
 //! Part (g): two pipelined queries each answered with n responses inside a
 //! BeginTransaction/EndTransaction bracket, n = 1..24 / 1..64.
+//! Part (h): service feedback (Begin/EndTransaction, Reconfigure) as a
+//! feedback-only item or attached to any response of a 1- or 3-response
+//! stream x 1..3 pipelined queries x max_queued_responses {1,2,default} x a
+//! client that reads promptly / stalls after f frames + x octets; and the
+//! same behaviours through DgramServer. Exactly-once, in order, whole frames.
 //! Part (a) also covers every deciding branch of the cookie middleware
 //! (client/valid/expired/too new/wrongly hashed/non-standard/malformed
 //! cookie x deny list x QDCOUNT=0 prefetch) and a limit-aware service
@@ -1032,6 +1037,59 @@ struct Log {
     svc_calls: Vec<(u16, SocketAddr, usize)>,
     produced: Vec<(u16, SocketAddr, Produced)>,
     flags: BTreeSet<&'static str>,
+    /// every item the outermost service stream yielded, in production order
+    /// over all requests (part (h))
+    items: Vec<ItemRec>,
+}
+
+/// The three kinds of `ServiceFeedback`.
+#[derive(Clone, Copy, Debug, PartialEq, Eq)]
+enum Fb {
+    Begin,
+    End,
+    Reconf,
+}
+
+impl Fb {
+    const ALL: [Fb; 3] = [Fb::Begin, Fb::End, Fb::Reconf];
+    fn name(self) -> &'static str {
+        match self {
+            Fb::Begin => "BeginTransaction",
+            Fb::End => "EndTransaction",
+            Fb::Reconf => "Reconfigure(idle=5s)",
+        }
+    }
+    fn from_name(s: &str) -> Option<Fb> {
+        Fb::ALL.into_iter().find(|f| f.name() == s)
+    }
+    fn to_feedback(self) -> ServiceFeedback {
+        match self {
+            Fb::Begin => ServiceFeedback::BeginTransaction,
+            Fb::End => ServiceFeedback::EndTransaction,
+            // smaller than the default idle timeout of 30 s
+            Fb::Reconf => ServiceFeedback::Reconfigure { idle_timeout: Some(Duration::from_secs(5)) },
+        }
+    }
+    fn of(f: ServiceFeedback) -> Fb {
+        match f {
+            ServiceFeedback::BeginTransaction => Fb::Begin,
+            ServiceFeedback::EndTransaction => Fb::End,
+            ServiceFeedback::Reconfigure { .. } => Fb::Reconf,
+        }
+    }
+}
+
+/// One item of a service stream as the transport got it.
+#[derive(Clone, Debug)]
+struct ItemRec {
+    id: u16,
+    addr: SocketAddr,
+    resp: Option<Vec<u8>>,
+    fb: Option<Fb>,
+    /// octets the tracked connection's peer had accepted when the item was produced
+    out_octets: u64,
+    /// the tracked connection's writer was blocked in the middle of / before a frame
+    blocked: bool,
 }
 
 struct Env {
@@ -1041,11 +1099,22 @@ struct Env {
     /// part (g): requests 0x2000.. are answered with a stream of this many
     /// responses inside a transaction (0 = off)
     txn_items: std::sync::atomic::AtomicUsize,
+    /// part (h): octets the peer of the tracked stream has accepted so far
+    out_octets: AtomicU64,
+    /// part (h): the tracked stream's peer currently refuses to read
+    write_blocked: AtomicBool,
 }
 
 impl Env {
     fn new(ch: Chooser, probe: bool) -> Arc<Env> {
-        Arc::new(Env { ch: Mutex::new(ch), probe: AtomicBool::new(probe), log: Mutex::new(Log::default()), txn_items: std::sync::atomic::AtomicUsize::new(0) })
+        Arc::new(Env {
+            ch: Mutex::new(ch),
+            probe: AtomicBool::new(probe),
+            log: Mutex::new(Log::default()),
+            txn_items: std::sync::atomic::AtomicUsize::new(0),
+            out_octets: AtomicU64::new(0),
+            write_blocked: AtomicBool::new(false),
+        })
     }
     fn choose(&self, n: usize, label: &'static str) -> usize {
         if self.probe.load(Ordering::SeqCst) {
@@ -1228,7 +1297,20 @@ where
                 }
                 Err(_) => Produced::Err,
             };
-            self.env.log.lock().unwrap().produced.push((self.id, self.addr, p));
+            let rec = ItemRec {
+                id: self.id,
+                addr: self.addr,
+                resp: match &p {
+                    Produced::Resp(b) => Some(b.clone()),
+                    _ => None,
+                },
+                fb: item.as_ref().ok().and_then(|cr| cr.feedback()).map(Fb::of),
+                out_octets: self.env.out_octets.load(Ordering::SeqCst),
+                blocked: self.env.write_blocked.load(Ordering::SeqCst),
+            };
+            let mut log = self.env.log.lock().unwrap();
+            log.items.push(rec);
+            log.produced.push((self.id, self.addr, p));
         }
         r
     }
@@ -1773,12 +1855,19 @@ struct StreamState {
     /// accepted, answer the next write with the given mode
     script: Option<(usize, usize)>,
     script_fired: bool,
+    /// part (h): the peer reads `frames` whole frames and `octets` octets of
+    /// the next one, then does not read until `release()` (an event of the
+    /// driver, not a point in time)
+    hold: Option<(usize, usize)>,
+    hold_waker: Option<Waker>,
 }
 
 struct StreamInner {
     env: Arc<Env>,
     /// a quiet stream always gets the default environment answers
     quiet: bool,
+    /// part (h): mirrors the octets accepted / the blocked state into `env`
+    tracked: bool,
     st: Mutex<StreamState>,
 }
 
@@ -1787,10 +1876,24 @@ struct MockStream(Arc<StreamInner>);
 
 impl MockStream {
     fn new(env: &Arc<Env>) -> MockStream {
-        MockStream(Arc::new(StreamInner { env: env.clone(), quiet: false, st: Mutex::new(StreamState::default()) }))
+        MockStream(Arc::new(StreamInner { env: env.clone(), quiet: false, tracked: false, st: Mutex::new(StreamState::default()) }))
     }
     fn quiet(env: &Arc<Env>) -> MockStream {
-        MockStream(Arc::new(StreamInner { env: env.clone(), quiet: true, st: Mutex::new(StreamState::default()) }))
+        MockStream(Arc::new(StreamInner { env: env.clone(), quiet: true, tracked: false, st: Mutex::new(StreamState::default()) }))
+    }
+    /// A quiet stream whose peer reads as `hold` says (part (h)).
+    fn tracked(env: &Arc<Env>, hold: Option<(usize, usize)>) -> MockStream {
+        let st = StreamState { hold, ..Default::default() };
+        MockStream(Arc::new(StreamInner { env: env.clone(), quiet: true, tracked: true, st: Mutex::new(st) }))
+    }
+    /// The peer reads again.
+    fn release(&self) {
+        let mut st = self.0.st.lock().unwrap();
+        st.hold = None;
+        self.0.env.write_blocked.store(false, Ordering::SeqCst);
+        if let Some(w) = st.hold_waker.take() {
+            w.wake();
+        }
     }
     fn choose(&self, n: usize, label: &'static str) -> usize {
         if self.0.quiet {
@@ -1869,6 +1972,32 @@ impl AsyncWrite for MockStream {
             }
             st.stalled_until = None;
         }
+        if let Some((f, x)) = st.hold {
+            let (frames, leftover) = deframe(&st.out);
+            let allowed = if frames.len() < f {
+                // up to the end of the current frame
+                if leftover < 2 {
+                    2 - leftover
+                } else {
+                    let p = st.out.len() - leftover;
+                    2 + u16::from_be_bytes([st.out[p], st.out[p + 1]]) as usize - leftover
+                }
+            } else if frames.len() == f {
+                x.saturating_sub(leftover)
+            } else {
+                0
+            };
+            if allowed == 0 {
+                st.hold_waker = Some(cx.waker().clone());
+                self.0.env.write_blocked.store(true, Ordering::SeqCst);
+                return Poll::Pending;
+            }
+            let n = allowed.min(buf.len());
+            st.writes.push("held");
+            st.out.extend_from_slice(&buf[..n]);
+            self.0.env.out_octets.store(st.out.len() as u64, Ordering::SeqCst);
+            return Poll::Ready(Ok(n));
+        }
         let mut c = if st.pend_once {
             st.pend_once = false;
             0
@@ -1893,6 +2022,9 @@ impl AsyncWrite for MockStream {
         match c {
             0 => {
                 st.out.extend_from_slice(buf);
+                if self.0.tracked {
+                    self.0.env.out_octets.store(st.out.len() as u64, Ordering::SeqCst);
+                }
                 Poll::Ready(Ok(buf.len()))
             }
             1 => {
@@ -2892,6 +3024,496 @@ fn reconfigure_cases(quick: bool) -> Vec<ReconfCase> {
 }
 
 // ===========================================================================
+// Part (h): service feedback x response placement x bounded response queue
+// ===========================================================================
+
+/// How the client of the connection reads: `None` = promptly; `Some((f, x))`
+/// = it reads f whole frames and x octets of the next one, then nothing until
+/// the driver lets it go on (after the server had every chance to run).
+const READERS: [(&str, Option<(usize, usize)>); 6] = [
+    ("reads-promptly", None),
+    ("stalls-before-the-first-octet", Some((0, 0))),
+    ("stalls-after-the-first-frame", Some((1, 0))),
+    ("stalls-inside-the-first-length-prefix", Some((0, 1))),
+    ("stalls-3-octets-into-the-second-frame", Some((1, 3))),
+    ("stalls-after-two-frames", Some((2, 0))),
+];
+
+const FILLERS: [&str; 3] = ["single", "stream10", "transaction(begin,3,end)"];
+
+/// scheduler turns the driver lets pass before a stalled reader reads again
+const FB_YIELDS: usize = 100;
+const FB_FOLLOWUP_ID: u16 = 0x3F00;
+
+#[derive(Clone, Debug)]
+struct FbCase {
+    /// true: one datagram to a DgramServer (n = 1, no queue, no reader)
+    dgram: bool,
+    /// pipelined requests, all in one segment
+    n: usize,
+    /// which of them gets the behaviour under test
+    pos: usize,
+    /// behaviour of the others (index into FILLERS)
+    filler: usize,
+    /// responses in the subject's stream
+    k: usize,
+    /// (slot, feedback): slot 2j = a feedback-only item before response j
+    /// (2k: after the last response), slot 2i+1 = attached to response i
+    events: Vec<(usize, Fb)>,
+    /// ConnectionConfig::set_max_queued_responses (None: the default config)
+    cap: Option<usize>,
+    reader: usize,
+    /// the subject's stream yields to the scheduler before every item
+    yields: bool,
+}
+
+type FbScript = Vec<(bool, Option<Fb>)>;
+
+impl FbCase {
+    fn to_json(&self) -> Value {
+        json!({
+            "part": "feedback", "transport": if self.dgram { "dgram" } else { "stream" },
+            "n": self.n, "pos": self.pos, "filler": FILLERS[self.filler], "filler_index": self.filler, "k": self.k,
+            "events": self.events.iter().map(|(s, f)| json!([s, f.name()])).collect::<Vec<_>>(),
+            "items": self.subject_script().iter().map(|(r, f)| format!("{}{}", if *r { "response" } else { "feedback-only" }, f.map(|f| format!("+{}", f.name())).unwrap_or_default())).collect::<Vec<_>>(),
+            "max_queued_responses": self.cap, "reader": READERS[self.reader].0, "reader_index": self.reader, "yields": self.yields,
+        })
+    }
+    fn from_json(v: &Value) -> Option<FbCase> {
+        let mut events = Vec::new();
+        for e in v["events"].as_array()? {
+            events.push((e[0].as_u64()? as usize, Fb::from_name(e[1].as_str()?)?));
+        }
+        Some(FbCase {
+            dgram: v["transport"].as_str()? == "dgram",
+            n: v["n"].as_u64()? as usize,
+            pos: v["pos"].as_u64()? as usize,
+            filler: v["filler_index"].as_u64()? as usize,
+            k: v["k"].as_u64()? as usize,
+            events,
+            cap: v["max_queued_responses"].as_u64().map(|x| x as usize),
+            reader: v["reader_index"].as_u64()? as usize,
+            yields: v["yields"].as_bool()?,
+        })
+    }
+    fn subject_script(&self) -> FbScript {
+        let mut v = Vec::new();
+        for slot in 0..=2 * self.k {
+            let fb = self.events.iter().find(|e| e.0 == slot).map(|e| e.1);
+            if slot % 2 == 1 {
+                v.push((true, fb));
+            } else if fb.is_some() {
+                v.push((false, fb));
+            }
+        }
+        v
+    }
+    fn filler_script(&self) -> FbScript {
+        match self.filler {
+            0 => vec![(true, None)],
+            1 => vec![(true, None); 10],
+            _ => vec![(false, Some(Fb::Begin)), (true, None), (true, None), (true, Some(Fb::End))],
+        }
+    }
+    fn req_id(slot: usize) -> u16 {
+        0x3000 + slot as u16
+    }
+    fn request(id: u16) -> Vec<u8> {
+        let mut m = hdr(id, F_RD, [1, 0, 0, 0]);
+        let l = format!("f{:x}", id & 0xFF);
+        m.extend_from_slice(&question(&name_wire(&[l.as_bytes(), b"example"]), 1));
+        m
+    }
+    fn service(&self) -> FbSvc {
+        let mut table = BTreeMap::new();
+        let mut yielding = BTreeSet::new();
+        for slot in 0..self.n {
+            table.insert(FbCase::req_id(slot), if slot == self.pos { self.subject_script() } else { self.filler_script() });
+        }
+        if self.yields {
+            yielding.insert(FbCase::req_id(self.pos));
+        }
+        FbSvc { table: Arc::new(table), yielding: Arc::new(yielding) }
+    }
+}
+
+/// Plays a scripted item sequence per request ID; any other request gets one
+/// plain response.
+#[derive(Clone)]
+struct FbSvc {
+    table: Arc<BTreeMap<u16, FbScript>>,
+    yielding: Arc<BTreeSet<u16>>,
+}
+
+impl Service<Vec<u8>, ()> for FbSvc {
+    type Target = Vec<u8>;
+    type Stream = BoxStream;
+    type Future = Pin<Box<dyn Future<Output = Self::Stream> + Send>>;
+
+    fn call(&self, request: Request<Vec<u8>, ()>) -> Self::Future {
+        let id = request.message().header().id();
+        let script = self.table.get(&id).cloned().unwrap_or_else(|| vec![(true, None)]);
+        let mut items: VecDeque<ServiceResult<Vec<u8>>> = VecDeque::new();
+        let mut idx = 0u8;
+        for (has_resp, fb) in script {
+            let fb = fb.map(Fb::to_feedback);
+            items.push_back(if has_resp {
+                let it = mk_item(&request, idx);
+                idx += 1;
+                match fb {
+                    Some(f) => it.map(|cr| cr.with_feedback(f)),
+                    None => it,
+                }
+            } else {
+                Ok(CallResult::feedback_only(fb.expect("a feedback-only item has feedback")))
+            });
+        }
+        let y = self.yielding.contains(&id);
+        Box::pin(async move {
+            let st: BoxStream = Box::pin(futures_util::stream::unfold(items, move |mut items| async move {
+                let it = items.pop_front()?;
+                if y {
+                    tokio::task::yield_now().await;
+                }
+                Some((it, items))
+            }));
+            st
+        })
+    }
+}
+
+struct FbObs {
+    out: Vec<u8>,
+    writes: usize,
+    server_closed: bool,
+    alive: bool,
+    stopped: bool,
+    /// virtual time that passed while the driver only yielded (must be none)
+    clock_moved: bool,
+    sends: Vec<SendRec>,
+}
+
+fn fb_addr() -> SocketAddr {
+    "192.0.2.40:4400".parse().unwrap()
+}
+
+fn frame_of(m: &[u8]) -> Vec<u8> {
+    let mut v = (m.len() as u16).to_be_bytes().to_vec();
+    v.extend_from_slice(m);
+    v
+}
+
+async fn drive_feedback(env: Arc<Env>, case: FbCase) -> FbObs {
+    let svc = Recorder { inner: mk_stack(case.service()), env: env.clone() };
+    if case.dgram {
+        let sock = MockSock::new(&env);
+        let srv = Arc::new(DgramServer::new(sock.clone(), VecBufSource, svc));
+        let s2 = srv.clone();
+        let jh = tokio::spawn(async move { s2.run().await });
+        sock.deliver(FbCase::request(FbCase::req_id(0)), fb_addr());
+        tokio::time::sleep(Duration::from_secs(2)).await;
+        sock.deliver(FbCase::request(FB_FOLLOWUP_ID), fb_addr());
+        tokio::time::sleep(Duration::from_secs(2)).await;
+        let alive = !jh.is_finished();
+        let _ = srv.shutdown();
+        tokio::time::sleep(Duration::from_secs(1)).await;
+        let sends = sock.0.st.lock().unwrap().sends.clone();
+        return FbObs { out: Vec::new(), writes: 0, server_closed: false, alive, stopped: jh.is_finished(), clock_moved: false, sends };
+    }
+    let listener = MockListener::new(&env);
+    let mut cfg = stream::Config::new();
+    if let Some(c) = case.cap {
+        let mut cc = domain::net::server::ConnectionConfig::new();
+        cc.set_max_queued_responses(c);
+        cfg.set_connection_config(cc);
+    }
+    let srv = Arc::new(StreamServer::with_config(listener.clone(), VecBufSource, Arc::new(svc), cfg));
+    let s2 = srv.clone();
+    let jh = tokio::spawn(async move { s2.run().await });
+    let a = MockStream::tracked(&env, READERS[case.reader].1);
+    listener.connect(a.clone(), fb_addr());
+    let mut seg = Vec::new();
+    for slot in 0..case.n {
+        seg.extend_from_slice(&frame_of(&FbCase::request(FbCase::req_id(slot))));
+    }
+    a.feed(&seg);
+    // The stall of the reader ends with an event, not at a time: a server
+    // that waits for room in its queue by yielding keeps the runtime busy,
+    // so the paused clock would never reach a deadline.
+    let t0 = tokio::time::Instant::now();
+    for _ in 0..FB_YIELDS {
+        tokio::task::yield_now().await;
+    }
+    let clock_moved = tokio::time::Instant::now() != t0;
+    a.release();
+    tokio::time::sleep(Duration::from_secs(1)).await;
+    a.feed(&frame_of(&FbCase::request(FB_FOLLOWUP_ID)));
+    tokio::time::sleep(Duration::from_secs(2)).await;
+    a.close(false);
+    tokio::time::sleep(Duration::from_secs(1)).await;
+    let alive = !jh.is_finished();
+    let _ = srv.shutdown();
+    tokio::time::sleep(Duration::from_secs(1)).await;
+    let st = a.0.st.lock().unwrap();
+    FbObs { out: st.out.clone(), writes: st.writes.len(), server_closed: st.shutdown, alive, stopped: jh.is_finished(), clock_moved, sends: Vec::new() }
+}
+
+/// The response of a produced item with what the oracle needs to know.
+struct FbProduced {
+    id: u16,
+    bytes: Vec<u8>,
+    /// produced at or after the item carrying BeginTransaction and not after
+    /// the item carrying EndTransaction of its request
+    in_txn: bool,
+    begins: bool,
+    ends: bool,
+    out_octets: u64,
+    blocked: bool,
+    written_at: Option<usize>,
+}
+
+/// The one defect class already on record for this area (known finding:
+/// "stream Connection drops a response when the response queue is full and
+/// the request is not in a transaction"). Part (h) meets the same defect with
+/// smaller queues; it is one defect, so it is reported as one class.
+const SIG_QUEUE_FULL_OUTSIDE_TXN: &str = "C16|stream-depth|response-missing|pipelined-requests>max_queued_responses(10)";
+
+fn run_feedback(case: &FbCase, col: &Collector) {
+    let env = Env::new(Chooser::default(), true);
+    let _ = take_task_panics();
+    let env2 = env.clone();
+    let case2 = case.clone();
+    let rt = new_runtime();
+    let res = guard(|| rt.block_on(drive_feedback(env2, case2)));
+    drop(rt);
+    let panics = take_task_panics();
+    let replay = case.to_json();
+    let comp = if case.dgram { "dgram-feedback" } else { "stream-feedback" };
+    let mut viol: Vec<(String, String)> = Vec::new();
+    for p in &panics {
+        viol.push((format!("C16|{comp}|panic|{}", panic_class(p)), format!("panic in the server: {p}")));
+    }
+    let obs = match res {
+        Ok(o) => o,
+        Err(p) => {
+            if panics.is_empty() {
+                viol.push((format!("C16|{comp}|panic|{}", panic_class(&p)), format!("panic: {p}")));
+            }
+            col.report(viol, &replay);
+            return;
+        }
+    };
+    if obs.clock_moved {
+        eprintln!("MACHINERY: virtual time moved while the driver of part (h) only yielded ({replay})");
+        std::process::exit(2);
+    }
+    if !obs.alive {
+        viol.push((format!("C16|{comp}|server-task-exited"), "the server's run() returned before shutdown".into()));
+    }
+    if !obs.stopped {
+        viol.push((format!("C16|{comp}|server-task-ignores-shutdown"), "the server's run() did not return after shutdown()".into()));
+    }
+    let log = env.log.lock().unwrap();
+    let st = &col.stats;
+    st.eval();
+    st.distinct(fnv(replay.to_string().as_bytes()));
+    let mut counts: BTreeMap<String, u64> = BTreeMap::new();
+    let mut bump = |k: String, n: u64| *counts.entry(k).or_insert(0) += n;
+
+    // ---- what the service stack handed to the transport -------------------
+    let addr = fb_addr();
+    let mut ids: Vec<u16> = (0..case.n).map(FbCase::req_id).collect();
+    ids.push(FB_FOLLOWUP_ID);
+    let mut produced: Vec<FbProduced> = Vec::new();
+    let mut in_txn: BTreeMap<u16, bool> = BTreeMap::new();
+    for it in log.items.iter().filter(|i| i.addr == addr) {
+        let t = in_txn.entry(it.id).or_insert(false);
+        if it.fb == Some(Fb::Begin) {
+            *t = true;
+        }
+        if let Some(b) = &it.resp {
+            produced.push(FbProduced { id: it.id, bytes: b.clone(), in_txn: *t, begins: it.fb == Some(Fb::Begin), ends: *t && it.fb == Some(Fb::End), out_octets: it.out_octets, blocked: it.blocked, written_at: None });
+        }
+        if it.fb == Some(Fb::End) {
+            *t = false;
+        }
+        if it.fb.is_some() {
+            bump(format!("feedback.{comp}.items.{}.{}", it.fb.unwrap().name(), if it.resp.is_some() { "attached-to-a-response" } else { "feedback-only" }), 1);
+        }
+    }
+    for id in &ids {
+        if !log.dispatched.iter().any(|d| d.0 == *id && d.1 == addr) {
+            let which = if *id == FB_FOLLOWUP_ID { "later-request-on-the-same-connection" } else { "pipelined-request" };
+            viol.push((format!("C16|{comp}|request-not-dispatched|{which}"), format!("the well-formed query {id:#x} never reached the service")));
+        }
+    }
+
+    // ---- what was sent ---------------------------------------------------
+    let msgs: Vec<Vec<u8>> = if case.dgram {
+        for s in &obs.sends {
+            if s.dest != addr {
+                viol.push((format!("C16|{comp}|send|unknown-destination"), format!("datagram sent to {}", s.dest)));
+            }
+        }
+        obs.sends.iter().map(|s| s.data.clone()).collect()
+    } else {
+        let (msgs, leftover) = deframe(&obs.out);
+        if leftover != 0 {
+            viol.push((format!("C16|{comp}|framing|partial-frame-at-end"), format!("{leftover} octets written that do not form a length-prefixed message (no write ever failed)")));
+        }
+        msgs
+    };
+    let mut ends: Vec<u64> = Vec::new();
+    let mut p = 0u64;
+    for m in &msgs {
+        p += 2 + m.len() as u64;
+        ends.push(p);
+    }
+    for (fi, m) in msgs.iter().enumerate() {
+        if m.len() < 12 {
+            viol.push((format!("C16|{comp}|framing|message-shorter-than-header"), format!("a message of {} octets was sent", m.len())));
+            continue;
+        }
+        let id = u16::from_be_bytes([m[0], m[1]]);
+        if !ids.contains(&id) {
+            viol.push((format!("C16|{comp}|response|unknown-id"), format!("a message with id {id:#x} was sent but no such request was received")));
+            continue;
+        }
+        check_response_msg(comp, &ReqInfo::new(FbCase::request(id)), m, &mut viol);
+        match produced.iter_mut().find(|pr| pr.bytes == *m) {
+            None => viol.push((format!("C16|{comp}|response-altered-or-invented"), format!("{} was sent for request {id:#x}, the service produced no such response", hex(m)))),
+            Some(pr) if pr.written_at.is_some() => viol.push((format!("C16|{comp}|response-duplicate"), format!("response {} of request {id:#x} was sent twice", hex(m)))),
+            Some(pr) => pr.written_at = Some(fi),
+        }
+    }
+    // per-request order
+    for id in &ids {
+        let at: Vec<usize> = produced.iter().filter(|pr| pr.id == *id).filter_map(|pr| pr.written_at).collect();
+        if at.windows(2).any(|w| w[0] > w[1]) {
+            viol.push((format!("C16|{comp}|response-reordered"), format!("the responses to request {id:#x} were sent in the order {at:?} of the order they were produced in")));
+        }
+    }
+    // exactly once: nothing the service produced may be missing
+    let cap = case.cap.unwrap_or(10);
+    let mut dropped_known = 0u64;
+    for j in 0..produced.len() {
+        let pr = &produced[j];
+        // responses handed over earlier that the peer had not got completely
+        // when this one was produced, minus the one the writer was busy with:
+        // that many sat in the connection's queue
+        let waiting = produced[..j].iter().filter(|q| matches!(q.written_at, Some(fi) if ends[fi] > pr.out_octets)).count();
+        let queued = waiting.saturating_sub(pr.blocked as usize);
+        let full = !case.dgram && queued >= cap;
+        if pr.in_txn {
+            bump(format!("feedback.{comp}.responses-inside-a-transaction"), 1);
+            if full {
+                bump(format!("feedback.{comp}.responses-inside-a-transaction.produced-while-the-queue-was-full"), 1);
+                if pr.begins {
+                    bump(format!("feedback.{comp}.responses-carrying-BeginTransaction.produced-while-the-queue-was-full"), 1);
+                }
+                if pr.ends {
+                    bump(format!("feedback.{comp}.responses-carrying-EndTransaction.produced-while-the-queue-was-full"), 1);
+                }
+            }
+        } else if full {
+            bump(format!("feedback.{comp}.responses-outside-a-transaction.produced-while-the-queue-was-full"), 1);
+        }
+        if pr.written_at.is_some() {
+            continue;
+        }
+        let what = format!(
+            "response {} of request {:#x} was produced by the service but never sent ({} of the connection's {} queue places were taken when it was produced; {})",
+            hex(&pr.bytes), pr.id, queued, cap, READERS[case.reader].0
+        );
+        if pr.id == FB_FOLLOWUP_ID {
+            viol.push((format!("C16|{comp}|response-missing|later-request-on-the-same-connection"), what));
+        } else if pr.in_txn {
+            let place = if pr.begins {
+                "the-response-that-carries-BeginTransaction"
+            } else if pr.ends {
+                "the-response-that-carries-EndTransaction"
+            } else {
+                "a-response-between-begin-and-end"
+            };
+            viol.push((format!("C16|{comp}|response-missing|inside-a-transaction|{place}|queue-{}", if full { "full" } else { "not-full" }), what));
+        } else if full {
+            dropped_known += 1;
+            viol.push((SIG_QUEUE_FULL_OUTSIDE_TXN.to_string(), what));
+        } else {
+            viol.push((format!("C16|{comp}|response-missing|outside-a-transaction|queue-not-full"), what));
+        }
+    }
+    bump(format!("feedback.{comp}.executions.max_queued_responses={}.{}", case.cap.map(|c| c.to_string()).unwrap_or("default".into()), READERS[case.reader].0), 1);
+    bump(format!("feedback.{comp}.responses-produced"), produced.len() as u64);
+    bump(format!("feedback.{comp}.responses-sent"), msgs.len() as u64);
+    if dropped_known > 0 {
+        bump(format!("feedback.{comp}.executions-with-a-drop-of-the-known-class(outside-a-transaction,queue-full)"), 1);
+    }
+    st.merge_counts(&counts);
+    st.sample(if case.dgram { 2 } else { 6 }, || json!({"part": comp, "case": replay.clone(), "produced": produced.len(), "sent": msgs.len(), "write_calls": obs.writes}));
+    if col.verbose {
+        println!("{comp} case {replay}");
+        println!("  written {} octets in {} messages, server closed the connection: {}", obs.out.len(), msgs.len(), obs.server_closed);
+        for it in log.items.iter().filter(|i| i.addr == addr) {
+            println!("  item of {:#x}: {} feedback {:?}; peer had {} octets, writer blocked: {}", it.id, it.resp.as_ref().map(|b| format!("response {}", hex(b))).unwrap_or("no response".into()), it.fb.map(|f| f.name()), it.out_octets, it.blocked);
+        }
+        for m in &msgs {
+            println!("  sent: {}", hex(m));
+        }
+    }
+    drop(log);
+    col.report(viol, &replay);
+}
+
+fn feedback_cases(quick: bool) -> Vec<FbCase> {
+    // behaviours of the subject: k responses, up to two feedbacks, each on
+    // its own item
+    let mut behaviours: Vec<(usize, Vec<(usize, Fb)>)> = Vec::new();
+    for k in [1usize, 3] {
+        behaviours.push((k, Vec::new()));
+        for s1 in 0..=2 * k {
+            for f1 in Fb::ALL {
+                behaviours.push((k, vec![(s1, f1)]));
+                for s2 in s1 + 1..=2 * k {
+                    for f2 in Fb::ALL {
+                        behaviours.push((k, vec![(s1, f1), (s2, f2)]));
+                    }
+                }
+            }
+        }
+    }
+    let mut layouts: Vec<(usize, usize, usize)> = vec![(1, 0, 0)];
+    let fillers = if quick { 2 } else { 3 };
+    for n in 2..=3usize {
+        for pos in 0..n {
+            for filler in 0..fillers {
+                layouts.push((n, pos, filler));
+            }
+        }
+    }
+    let readers = if quick { 3 } else { READERS.len() };
+    let mut v = Vec::new();
+    for (k, events) in &behaviours {
+        for &(n, pos, filler) in &layouts {
+            for cap in [Some(1usize), Some(2), None] {
+                for reader in 0..readers {
+                    for yields in [false, true] {
+                        if yields && quick {
+                            continue;
+                        }
+                        v.push(FbCase { dgram: false, n, pos, filler, k: *k, events: events.clone(), cap, reader, yields });
+                    }
+                }
+            }
+        }
+        for yields in [false, true] {
+            v.push(FbCase { dgram: true, n: 1, pos: 0, filler: 0, k: *k, events: events.clone(), cap: None, reader: 0, yields });
+        }
+    }
+    v
+}
+
+// ===========================================================================
 // main
 // ===========================================================================
 
@@ -2962,6 +3584,10 @@ fn main() {
                 let rc = ReconfCase { l1: l("l1"), l2: l("l2"), size: case["size"].as_u64().unwrap() as usize, adv: case["adv"].as_u64().unwrap() as u16 };
                 println!("replaying reconfigure case {rc:?}");
                 run_reconfigure(&rc, &col);
+            }
+            Some("feedback") => {
+                let c = FbCase::from_json(case).expect("case");
+                run_feedback(&c, &col);
             }
             Some("failed-setups") => {
                 run_failed_setups(case["n"].as_u64().unwrap() as usize, case["max_concurrent_connections"].as_u64().map(|x| x as usize), &col);
@@ -3088,7 +3714,15 @@ fn main() {
         wd.leave();
     });
 
-    let b_execs = h_cases.len() as u64 + max_txn as u64 + dg.executions + sx.executions + max_depth as u64 + fs_cases.len() as u64 + rc_cases.len() as u64 + wc_cases.len() as u64;
+    // ---- part (h): feedback placement x queue capacity x reader ---------------
+    let fb_cases = feedback_cases(quick);
+    fb_cases.par_iter().for_each(|c| {
+        wd.enter(|| c.to_json());
+        run_feedback(c, &col);
+        wd.leave();
+    });
+
+    let b_execs = fb_cases.len() as u64 + h_cases.len() as u64 + max_txn as u64 + dg.executions + sx.executions + max_depth as u64 + fs_cases.len() as u64 + rc_cases.len() as u64 + wc_cases.len() as u64;
     let evaluations = a_stats.evals() + b_execs;
     let distinct = a_stats.distinct_count() + col.stats.distinct_count();
     let mut samples = a_stats.samples();
@@ -3101,7 +3735,7 @@ fn main() {
             "traces_validated_against_impl": a_stats.evals() + b_execs,
             "evaluations": evaluations,
             "distinct_nontrivial": distinct,
-            "rule": "(a) a case is non-trivial when the middleware changed the service's response, truncated it, or it exceeds the bound; (b) an execution is non-trivial when it has >= 1 non-default choice; (c) every depth; (d) every (n, limit) pair; (e) every (l1, l2, size, advertised) tuple; (f) every (cut, mode) pair; distinct by hash of the case / choice vector",
+            "rule": "(a) a case is non-trivial when the middleware changed the service's response, truncated it, or it exceeds the bound; (b) an execution is non-trivial when it has >= 1 non-default choice; (c) every depth; (d) every (n, limit) pair; (e) every (l1, l2, size, advertised) tuple; (f) every (cut, mode) pair; (h) every (layout, behaviour, queue capacity, reader) tuple; distinct by hash of the case / choice vector",
             "exhaustive": exhaustive,
             "samples": samples,
             "part_a": {
@@ -3117,6 +3751,8 @@ fn main() {
                 "pipeline_depths": max_depth,
                 "at_limit_cases": h_cases.len(),
                 "transaction_stream_lengths": max_txn,
+                "feedback_cases": fb_cases.len(),
+                "feedback_cases_dgram": fb_cases.iter().filter(|c| c.dgram).count(),
                 "write_cut_cases": wc_cases.len(),
                 "write_cut_stream_octets": wc_total,
                 "reconfigure_cases": rc_cases.len(),
@@ -3135,6 +3771,9 @@ fn main() {
             "part (b) also chooses how the stack was assembled (MandatoryMiddlewareSvc::new / ::relaxed / cookies.enable(false)) and two more service behaviours (transaction bracket around 3 responses; Reconfigure{idle_timeout 60 s} feedback); the stream server gets the service behind an Arc (impl Service for Deref), the datagram server by value; both are built with ::new() in the exploration and with_config() in the sweeps",
             "part (d) at-limit scenario: X arriving while the server is full may be turned away (that is what the limit is for); demanded is only that once all open connections closed a fresh connection is answered, and that after reconfigure() raised the limit by one X or a fresh connection is answered; limits 1..3, accept_connections_at_max on/off, connection config set through every setter (idle 300 s, write timeout 10 s, queue 32)",
             "part (g): inside a transaction every response of the stream must arrive, also when there are more than max_queued_responses",
+            "part (h): 1..3 queries pipelined in one segment on one connection; one of them (every position) is answered with k in {1,3} responses and up to two ServiceFeedback items {BeginTransaction, EndTransaction, Reconfigure(idle 5 s)} each placed on any of the 2k+1 slots {feedback-only item before response j / after the last, attached to response i with CallResult::with_feedback}; the other queries get {one response, a stream of 10 responses, (thorough) a bracketed transaction of 3}; max_queued_responses in {1, 2, default}; the client {reads promptly, reads f frames + x octets and then nothing until the driver has yielded 100 scheduler turns} (quick 3, thorough 6 stall points; thorough also a service stream that yields before every item); afterwards one more query on the same connection. Demanded: every message sent is a response the outermost service stream produced, none twice, per request in production order, whole frames only, the later query answered. A response that was produced but never sent is a violation; its class names where it stood (carrying BeginTransaction / carrying EndTransaction / between them / outside a transaction) and whether the connection's queue was full when it was produced. Queue occupancy is computed from observations only (responses handed over earlier whose frame the peer had not completely got, minus the one the blocked writer holds). A transaction is what ServiceFeedback documents: from the item carrying BeginTransaction up to and including the item carrying EndTransaction",
+            "part (h): a response outside a transaction that is lost while the queue is full is the defect already on record (known finding: Connection drops a response when the queue is full and the request is not in a transaction) and is reported under that finding's signature; with a spinning in-transaction sender in another request the occupancy may be over-counted by that sender's response, which can only move a loss outside a transaction from the unexplained class to the known one",
+            "part (h) datagram: the same behaviours through DgramServer (shared ServiceInvoker): every response produced is sent exactly once, in order",
             "part (e): DgramServer with limit l1 serves a request, reconfigure(l2), 1 s, a request, reconfigure(l1), 1 s, a request; l1 != l2 in {512,1232,4096,none}, EDNS 1232/4096, service sizes around every limit; the limit demanded for a request is the one configured when it is received, which is all that dgram::Config::set_max_response_size promises for reconfigure",
             "part (d): n connections whose AsyncAccept::Future resolves to Err arrive one at a time (100 ms apart), then one fresh well-behaved connection; max_concurrent_connections in {1,2,3} with n = 0..=limit+2 (quick) / limit+5 (thorough), and the default 100 with n in {1,99,100,101} (quick) / 1..=130 (thorough); a connection whose set-up failed holds no slot of the connection limit",
             "a complete frame shorter than a DNS header, a client EOF/reset, or an environment write failure on a connection excuses missing responses on THAT connection (closing such a connection is permitted, RFC 7766 6.2.4); other connections and earlier written responses are still checked",
